@@ -207,7 +207,10 @@ def c02(proj, rep, tier):
     rep.floor('G2 projected Gell-Mann synthesis sites in the manifold maps', ntyped, 6)
     n = manifold.w7(proj, rep, MANIFOLD)
     rep.floor('W7 branch paths whose theta column slices are typed', n, 6)
+    n = hermitian.hm1(proj, rep, MANIFOLD if tier == 'quick' else sorted(proj.modules))
+    rep.floor('HM1 self-transpose compositions in the manifold maps', n, 10)
     n = round3b.w8(proj, rep, MANIFOLD if tier == 'quick' else None)
+    round3b.dt7(proj, rep, MANIFOLD if tier == 'quick' else None)
     rep.floor('W8 forward trivialization maps scanned for saturating functions', n, 25)
     rep.assume('full rank of the Jacobian at generic theta is value-level: only necessary conditions (parameter count, theta '
                'placed in a field the projection keeps, theta reaches the map) are decided')
